@@ -1,7 +1,136 @@
-/- Model `Topo` (driver token `topo`) — stub, to be filled in. -/
-namespace Stab.Topo
+/-
+  Model of `stabilize.dag.topological`: `topological_sort` (layered Kahn) and
+  `validate_stage_graph` (what `Workflow.create` calls before it builds the workflow).
 
-/-- driver entry: the rest of the request line after the model token -/
-def drive (_rest : String) : String := "unimplemented"
+  A stage is `(ref, requisites, top)`; `top` is `parent_stage_id is None` (both functions look at
+  top-level stages only).  Refs are strings in the code; the harness numbers them.  A stage's
+  identity is its position in the list (the code tracks `stage.id`, a ULID), so two stages may
+  carry the same ref — that is exactly the `duplicate_ref` defect.
+
+  Order inside one Kahn layer: the code iterates a `set` of ULID strings, so the order inside a
+  layer is arbitrary; the model keeps input order.  The correspondence compares layer by layer
+  (refs sorted inside a layer), the theorems are about every order the model can produce *and*
+  `toposort_sound`'s statement (each stage after all of its requisites, permutation of the input)
+  is what the implementation-side monitor checks on the real output.
+-/
+import Stab.Model.Basic
+
+namespace Stab.Topo
+open Stab
+
+structure Stage where
+  ref : Nat
+  reqs : List Nat            -- `requisite_stage_ref_ids` (a set; duplicates in the list are harmless)
+  top : Bool := true         -- `parent_stage_id is None`
+  deriving DecidableEq, Repr
+
+/-- what `validate_stage_graph` raises.  The first three are `InvalidStageGraphError`
+    (message prefix `duplicate_ref:` / `self_edge:` / `unknown_ref:`), the last is
+    `CircularDependencyError` with `.stages` = the stages Kahn could not order. -/
+inductive GraphErr where
+  | duplicateRef (r : Nat)
+  | selfEdge (r : Nat)
+  | unknownRef (r : Nat) (unknown : List Nat)
+  | cycle (members : List Stage)
+  deriving DecidableEq, Repr
+
+/-- `[s for s in stages if s.parent_stage_id is None]` -/
+def topLevel (stages : List Stage) : List Stage := stages.filter (·.top)
+
+/-- `ref_ids.issuperset(stage.requisite_stage_ref_ids)` -/
+def ready (done : List Nat) (s : Stage) : Bool := s.reqs.all (fun r => done.contains r)
+
+/-- The `while unsorted_ids:` loop.  `acc` = the layers emitted so far (`sorted_stages`, kept per
+    round), `ref_ids` = the refs of everything in `acc`.  One round takes *every* sortable stage.
+    Fuel = number of rounds allowed; `unsorted.length` always suffices (`Lemmas.C20Topo.kahn_fuel`),
+    the `0` branch with work left is therefore unreachable from `toposortLayers`. -/
+def kahn : Nat → List Stage → List (List Stage) → Except (List Stage) (List (List Stage))
+  | _, [], acc => .ok acc
+  | 0, u :: us, _ => .error (u :: us)
+  | n + 1, u :: us, acc =>
+    let done := acc.flatten.map (·.ref)
+    let layer := (u :: us).filter (ready done)
+    if layer.isEmpty then .error (u :: us)            -- `if not sortable: raise CircularDependencyError`
+    else kahn n ((u :: us).filter (fun s => !ready done s)) (acc ++ [layer])
+
+def toposortLayers (stages : List Stage) : Except (List Stage) (List (List Stage)) :=
+  kahn (topLevel stages).length (topLevel stages) []
+
+/-- `topological_sort(stages)` with the default filter -/
+def toposort (stages : List Stage) : Except (List Stage) (List Stage) :=
+  (toposortLayers stages).map List.flatten
+
+/-- first loop of `validate_stage_graph`: first ref already in `seen` -/
+def firstDup : List Nat → List Nat → Option Nat
+  | _, [] => none
+  | seen, r :: rs => if seen.contains r then some r else firstDup (r :: seen) rs
+
+/-- second loop: per stage, in order: self-edge first, then unknown refs (`seen` = all refs) -/
+def structural (refs : List Nat) : List Stage → Option GraphErr
+  | [] => none
+  | s :: rest =>
+    if s.reqs.contains s.ref then some (.selfEdge s.ref)
+    else
+      let unknown := s.reqs.filter (fun r => !refs.contains r)
+      if !unknown.isEmpty then some (.unknownRef s.ref unknown) else structural refs rest
+
+/-- `validate_stage_graph(stages)` (= the validation step of `Workflow.create`) -/
+def validate (stages : List Stage) : Except GraphErr Unit :=
+  let ts := topLevel stages
+  match firstDup [] (ts.map (·.ref)) with
+  | some r => .error (.duplicateRef r)
+  | none =>
+    match structural (ts.map (·.ref)) ts with
+    | some e => .error e
+    | none =>
+      match toposort stages with
+      | .ok _ => .ok ()
+      | .error u => .error (.cycle u)
+
+/-! ### driver
+  `topo validate <stages>` | `topo sort <stages>`; `<stages>` = `ref:req,req:top;...` or `-` for none.
+  Output: `ok` / `ok 1,2|3` (layers, refs sorted inside a layer) / `err <class> ...` (refs sorted). -/
+
+def insertSorted (x : Nat) : List Nat → List Nat
+  | [] => [x]
+  | y :: ys => if x ≤ y then x :: y :: ys else y :: insertSorted x ys
+
+def sortNats (xs : List Nat) : List Nat := xs.foldr insertSorted []
+
+def parseStage (s : String) : Option Stage :=
+  match s.splitOn ":" with
+  | [r, reqs, top] => do
+    pure { ref := (← Parse.nat? r), reqs := (← Parse.all? Parse.nat? (Parse.splitNE reqs ",")), top := (← Parse.bool? top) }
+  | _ => none
+
+def parseStages (s : String) : Option (List Stage) :=
+  if s == "-" then some [] else Parse.all? parseStage (s.splitOn ";")
+
+def showRefs (xs : List Nat) : String := Parse.showNats (sortNats xs)
+
+def showErr : GraphErr → String
+  | .duplicateRef r => s!"err duplicate_ref {r}"
+  | .selfEdge r => s!"err self_edge {r}"
+  | .unknownRef r u => s!"err unknown_ref {r} {showRefs (u.eraseDups)}"
+  | .cycle m => s!"err cycle {showRefs (m.map (·.ref))}"
+
+def drive (rest : String) : String :=
+  match rest.splitOn " " with
+  | ["validate", st] =>
+    match parseStages st with
+    | some stages =>
+      match validate stages with
+      | .ok _ => "ok"
+      | .error e => showErr e
+    | none => "bad-request"
+  | ["sort", st] =>
+    match parseStages st with
+    | some stages =>
+      match toposortLayers stages with
+      | .ok [] => "ok -"
+      | .ok layers => "ok " ++ Parse.joinWith "|" (layers.map (fun l => showRefs (l.map (·.ref))))
+      | .error u => showErr (.cycle u)
+    | none => "bad-request"
+  | _ => "bad-request"
 
 end Stab.Topo
